@@ -7,11 +7,12 @@ import traceback
 
 from harness import fw
 from harness import lr_tables as L
+from harness import lr_gen_x as GX
 
 META = {
-    "technique": "Coq proof that a first-order LR table validator (check_sound) is sound for the model of Parser.parse, for all tables; the validator applied (extracted OCaml; inside Coq for a sample / all in thorough) to the tables lr1.py builds for the Emboss module and expression grammars and for N random small CFGs per run; differential correspondence Parser.parse vs model on all strings up to length 6 (small grammars) and derived sentences + mutations (Emboss), cross-checked with an independent Earley recogniser, ambiguity counter and derivation checker",
-    "level_text": "Machine-checked theorems (Coq 8.16, no axioms), for ALL tables, certificates, grammars, token lists and fuel: if check_sound G T C = true and run T accepts, the returned tree is a derivation tree of the start symbol of G whose leaves are the input tokens in order (run_sound, run_sound_gen); an error at index i depends only on tokens 0..i (run_prefix_det). If check_complete G T I F = true (LR(1) item sets and FIRST sets as untrusted certificate) every derivation tree of the start symbol is returned given enough fuel (run_complete), an error at index i implies that no sentence starts with tokens 0..i (error_not_late), and on a sentence run returns its tree or runs out of fuel (sentence_result), and G is unambiguous (unambiguous). The generator is covered per instance: each run rebuilds the Emboss parsers and N random small grammars' parsers with the working tree's lr1.py and decides check_sound and check_complete on their tables and item sets. With check_early (item cores valid) and check_productive (rank certificate) an error at index i implies tokens 0..i-1 start a sentence (error_not_early), so the error position is exact (error_position_exact); without productivity this is refuted (error_not_early_refuted, grammar S -> a S). These and 'ambiguous grammars are reported' are additionally tested on every string up to length 6 (small grammars) and on sampled Emboss sentences against an independent Earley recogniser.",
-    "level_note": "sound and complete per validated instance (run_sound, run_complete, error_not_late proved for all tables passing the checkers; the checkers pass on the Emboss grammars and on every conflict-free random grammar of the run); error_not_early / error_position_exact proved under check_early + check_productive (instantiated on the Emboss grammars and every conflict-free productive random grammar; refuted without productivity: error_not_early_refuted); the generator itself is covered by translation validation of its output, not by a proof about lr1.py. Trusted: Coq kernel + vm_compute; extraction + OCaml for instance checks in quick (a sample is re-evaluated inside Coq and compared; thorough re-evaluates all small-grammar instances inside Coq); harness/lr_tables.py translator (certificates it computes are untrusted inputs of the verified checker); the Python Earley recogniser is support/search only. Modelled, not verified: lr1.py itself.",
+    "technique": "Coq proof that a first-order LR table validator (check_sound) is sound for the model of Parser.parse, for all tables; the validator applied (extracted OCaml; inside Coq for a sample / all in thorough) to the tables lr1.py builds for the Emboss module and expression grammars and for N random small CFGs per run; differential correspondence Parser.parse vs model on all strings up to length 6 (small grammars) and derived sentences + mutations (Emboss), cross-checked with an independent Earley recogniser, ambiguity counter and derivation checker; a Gallina model of the generator itself (LR/Gen.v: FIRST, closure, goto, canonical collection, table filling) is compared differentially with lr1.Grammar on every small grammar of the run and, for FIRST, on the Emboss grammar",
+    "level_text": "Machine-checked theorems (Coq 8.16, no axioms), for ALL tables, certificates, grammars, token lists and fuel: if check_sound G T C = true and run T accepts, the returned tree is a derivation tree of the start symbol of G whose leaves are the input tokens in order (run_sound, run_sound_gen); an error at index i depends only on tokens 0..i (run_prefix_det). If check_complete G T I F = true (LR(1) item sets and FIRST sets as untrusted certificate) every derivation tree of the start symbol is returned given enough fuel (run_complete), an error at index i implies that no sentence starts with tokens 0..i (error_not_late), and on a sentence run returns its tree or runs out of fuel (sentence_result), and G is unambiguous (unambiguous). The generator is covered per instance: each run rebuilds the Emboss parsers and N random small grammars' parsers with the working tree's lr1.py and decides check_sound and check_complete on their tables and item sets. With check_early (item cores valid) and check_productive (rank certificate) an error at index i implies tokens 0..i-1 start a sentence (error_not_early), so the error position is exact (error_position_exact); without productivity this is refuted (error_not_early_refuted, grammar S -> a S). These and 'ambiguous grammars are reported' are additionally tested on every string up to length 6 (small grammars) and on sampled Emboss sentences against an independent Earley recogniser. For the Gallina model of the generator (LR/Gen.v: FIRST fixed point, item closure, goto, canonical collection, table filling with conflict detection) and ALL grammars: the computed FIRST sets are exactly the terminals that can start / the nullability of a symbol string w.r.t. sentential-form derivations (first_sound, first_complete, first_complete_stable) and the computation never runs out of fuel (first_fuel_enough; closure_fuel_enough, goto_fuel_enough); the computed closure and goto are exactly ALSU's CLOSURE and GOTO (closure_closed, closure_sound, closure_exact, goto_spec); the computed collection starts with the closure of [S' -> . start, $] and is closed under goto (items_closed); whenever the model generator reports neither a conflict nor the Accept clash its tables pass check_complete (generate_pass_check_complete), hence every derivation tree is returned, no error is late and the grammar is unambiguous (generate_run_complete, generate_error_not_late, generate_clean_unambiguous; non-vacuous: generate_nonvacuous). The executable generator model LR.Gen.generate is tied to lr1.Grammar on every random and corpus grammar of the run: equal FIRST sets, closure of the start item, set of item sets, goto/action tables up to the state renaming induced by the item sets, set of conflicting cells and conflict verdict (and equal FIRST sets on the Emboss grammar).",
+    "level_note": "sound and complete per validated instance (run_sound, run_complete, error_not_late proved for all tables passing the checkers; the checkers pass on the Emboss grammars and on every conflict-free random grammar of the run); error_not_early / error_position_exact proved under check_early + check_productive (instantiated on the Emboss grammars and every conflict-free productive random grammar; refuted without productivity: error_not_early_refuted); the generator itself is covered by translation validation of its output, not by a proof about lr1.py. Trusted: Coq kernel + vm_compute; extraction + OCaml for instance checks in quick (a sample is re-evaluated inside Coq and compared; thorough re-evaluates all small-grammar instances inside Coq); harness/lr_tables.py translator (certificates it computes are untrusted inputs of the verified checker); the Python Earley recogniser is support/search only. Modelled, not verified: lr1.py itself. For the MODEL generator LR/Gen.v translation validation is a theorem (generate_pass_check_complete: clean verdict => check_complete, for every grammar); not proved for it: that clean tables also pass check_sound / check_early, and a fuel bound for the collection loop. The generator model LR/Gen.v corresponds to lr1.Grammar by differential testing only (harness/lr_gen_x.py; state numbers and the surviving action of a conflicting cell depend on Python set order and are compared up to renaming / as a set of cells; duplicate productions and the symbols S' and $ are outside the model and counted).",
 }
 
 FUEL_SMALL = lambda n: 400 + 80 * n
@@ -209,6 +210,140 @@ def judge_small_grammar(ctx, bench, sg):
     return bad
 
 
+# ==== generator model LR/Gen.v vs lr1.Grammar (decoding and comparison: harness/lr_gen_x.py) ==========
+
+def gen_model_cases(ctx, bench, smalls, emboss):
+    """Register command 30 (LR.Gen.generate) for every small grammar -- including those on which
+    lr1's parser() raised -- and command 31 (FIRST only) for the Emboss module grammar (gslot 1).
+    Must run after small_grammar_cases and before bench.flush; judged by judge_gen_model."""
+    from compiler.front_end import lr1, module_ir
+    sp = bench.I.s(lr1.START_PRIME)
+    for sg in smalls:
+        sg.gen_cmd = sg.gen_raw = sg.gen_view = None
+        why = GX.out_of_model(sg.start, sg.prods)
+        if why:
+            ctx.count("gen-model:out-of-model:" + why)
+            continue
+        if sg.parser is None:
+            bench.add_grammar(sg.slot, sg.start, sg.prods)      # small_grammar_cases defines it only when parser() returned
+        try:
+            sg.gen_view = GX.python_view(sg.start, sg.prods, bench.I)
+        except GX.DecodeError as ex:      # a shape of lr1's objects that is not understood: fail closed
+            raise L.TranslationError("generator model view of %r: %s" % (_gram(sg.prods), ex))
+        ffuel, cfuel, ifuel = GX.fuels(sg.gen_view)
+        sg.gen_cmd = [30, sg.slot, bench.eoi, sp, ffuel, cfuel, ifuel]
+        bench.cmd(sg.gen_cmd, lambda o, sg=sg: setattr(sg, "gen_raw", o))
+    rec = None
+    if "module" in emboss:
+        prods = list(module_ir.PRODUCTIONS)
+        why = GX.out_of_model(module_ir.START_SYMBOL, prods)
+        if why:
+            ctx.count("gen-model:out-of-model:emboss:" + why)
+        else:
+            rec = dict(raw=None, view=GX.first_view(module_ir.START_SYMBOL, sorted(module_ir.PRODUCTIONS), bench.I))
+            del rec["view"]["grammar_object"]
+            bench.cmd([31, emboss["module"]["slot"], 0], lambda o, rec=rec: rec.__setitem__("raw", o))
+    return rec
+
+
+def _bucket(n):
+    for lo, hi in ((1, 2), (3, 9), (10, 29), (30, 99), (100, 299)):
+        if n <= hi:
+            return "%d-%d" % (lo, hi)
+    return "300+"
+
+
+def judge_gen_model(ctx, bench, smalls, emboss_first):
+    """verdict part of gen_model_cases: one case per grammar, one obligation per aspect"""
+    bad = dict((a, 0) for a in GX.ASPECTS)
+    n = dict(grammars=0, nts=0, states=0, items=0, tabled=0, asserts=0, fuel1=0)
+    for sg in smalls:
+        if not getattr(sg, "gen_cmd", None):
+            continue
+        view = sg.gen_view
+        n["grammars"] += 1
+        n["nts"] += len(view["nts"])
+        n["states"] += len(view["states"])
+        n["items"] += view["n_items"]
+        if view["parser"] is None:
+            verdict = "assert" if view["raised"] == "accept-assert" else "exception"
+        else:
+            verdict = "conflicts" if view["parser"]["conflicts"] else "clean"
+            n["tabled"] += 1
+        n["asserts"] += 1 if view["raised"] == "accept-assert" else 0
+        if (sg.parser is None) != (view["parser"] is None):
+            ctx.count("gen-model:lr1-outcome-differs-between-two-calls-in-one-process")
+        ctx.count("gen-model:verdict:" + verdict)
+        ctx.count("gen-model:states:" + _bucket(len(view["states"])))
+        ctx.count("gen-model:items:" + _bucket(view["n_items"]))
+        ctx.case(("gen-model",) + tuple(_gram(sg.prods)) + (sg.start,), nontrivial=len(sg.prods) >= 2 and len(view["states"]) >= 3,
+                 sample=dict(correspondence="LR.Gen.generate vs lr1.Grammar", start=sg.start, grammar=_gram(sg.prods),
+                             states=len(view["states"]), items=view["n_items"], python=verdict))
+        try:
+            model = GX.decode_gen(sg.gen_raw)
+            if model["ok"] and any(clash for _, clash in model["fill"]):
+                ctx.count("gen-model:model-clash-flag-set")
+            if not model["ok"] and model["stage"] == 1:
+                n["fuel1"] += 1
+            diffs = GX.compare(view, model)
+        except GX.DecodeError as ex:
+            diffs = ["decode: the model's answer to %r does not decode: %s" % (sg.gen_cmd, ex)]
+        if not diffs:
+            continue
+        for a in GX.aspects_of(diffs):
+            bad[a] += 1
+        lr1_wrong = [s for s in diffs if s.startswith("lr1:")]
+        desc = "model generator LR.Gen.generate and lr1.Grammar disagree on a small grammar (%s): %s" % (
+            ", ".join(sorted(set(s.split(":", 1)[0] for s in diffs))), diffs[0][:300])
+        if lr1_wrong:
+            desc += " -- NOTE lr1.py ITSELF deviates from the textbook definition here, the defect is in lr1.py: " + lr1_wrong[0][:300]
+        ctx.violation("generator-model-correspondence", desc,
+                      dict(kind="grammar", correspondence="LR.Gen.generate vs lr1.Grammar", start=sg.start,
+                           productions=[[p.lhs, list(p.rhs)] for p in sg.prods], style=sg.style,
+                           hashseed=os.environ.get("PYTHONHASHSEED"), differences=diffs[:8]), found_input=False)
+    g = n["grammars"]
+    ctx.obligation("generator model: FIRST sets = lr1 Grammar.firsts and Grammar._first on %d grammars (%d nonterminals); Gen.first_fuel always suffices"
+                   % (g, n["nts"]), bad["FIRST"] == 0 and n["fuel1"] == 0)
+    ctx.obligation("generator model: closure of the start item [S' -> . start, $] = lr1 Grammar._closure_of_item on %d grammars (closure fuel Gen.closure_fuel)" % g,
+                   bad["closure"] == 0)
+    ctx.obligation("generator model: set of item sets / number of states = lr1 Grammar._items on %d grammars (%d states, %d items), no state twice"
+                   % (g, n["states"], n["items"]), bad["states"] == 0)
+    ctx.obligation("generator model: goto+action tables up to state renaming = lr1 (_items goto table on %d grammars; Parser.goto, Parser.action and "
+                   "the set of conflicting cells on the %d grammars where parser() returned)" % (g, n["tabled"]), bad["tables"] == 0)
+    ctx.obligation("generator model: conflict verdict gen_clean = (parser() returned without conflicts) on %d grammars; not clean on the %d "
+                   "grammars where lr1 raised the Accept AssertionError" % (g, n["asserts"]), bad["verdict"] == 0)
+    ctx.extra["generator_model"] = dict(grammars=g, nonterminals=n["nts"], states=n["states"], items=n["items"],
+                                        parser_returned=n["tabled"], accept_asserts=n["asserts"], grammars_with_differences=dict(bad))
+    # ---- FIRST sets of the Emboss grammar (command 31; the full generator run is too big for the list-based model)
+    if emboss_first is not None:
+        view = emboss_first["view"]
+        try:
+            m = GX.decode_first(emboss_first["raw"])
+            if not m["ok"]:
+                diffs = ["fuel: the model ran out of fuel in FIRST of the Emboss grammar although Gen.first_fuel was used"]
+            else:
+                diffs = list(view["lr1"]) + GX.compare_first(view, m["first"])
+                if not m["stable"]:
+                    diffs.append("FIRST: first_stable = false on the table the model computed for the Emboss grammar")
+        except GX.DecodeError as ex:
+            m = dict(first=[])
+            diffs = ["decode: the model's answer to command 31 does not decode: %s" % ex]
+        ctx.case(("gen-model-first", "emboss-module"), nontrivial=True)
+        ctx.count("gen-model:emboss-first-entries", len(m.get("first", [])))
+        ctx.obligation("generator model: FIRST sets of the Emboss grammar = lr1 (%d nonterminals, %d entries), first_stable = true"
+                       % (len(view["nts"]), len(m.get("first", []))), not diffs)
+        if diffs:
+            lr1_wrong = [s for s in diffs if s.startswith("lr1:")]
+            desc = "model FIRST (LR.Gen.first_table) and lr1.Grammar.firsts disagree on the Emboss grammar: " + diffs[0][:300]
+            if lr1_wrong:
+                desc += " -- NOTE lr1.py ITSELF deviates from the textbook FIRST fixpoint here, the defect is in lr1.py"
+            ctx.violation("generator-model-correspondence", desc,
+                          dict(kind="grammar", correspondence="LR.Gen.first_table vs lr1.Grammar.firsts", grammar="module_ir.PRODUCTIONS",
+                               differences=diffs[:8]), found_input=False)
+
+# ==== end of the generator model block ===================================================================
+
+
 def emboss_cases(ctx, bench, name, parser, start, slot, n_sent, budgets, n_earley):
     from compiler.front_end import module_ir, lr1
     prods = list(module_ir.PRODUCTIONS)
@@ -302,10 +437,11 @@ def run(ctx):
                 "length 6 (5 for 4 terminals; cap 1100) plus three out-of-alphabet probes: Parser.parse vs model `run` (all fields) and, for "
                 "conflict-free grammars, vs an independent Earley recogniser (membership, two-derivation search, longest viable prefix) and a "
                 "derivation checker; Emboss module/expression grammars: derived sentences + 2 token-level mutations each.  A case is "
-                "non-trivial when it has >= 2 tokens (>= 3 for Emboss); distinct by (grammar, token string)")
+                "non-trivial when it has >= 2 tokens (>= 3 for Emboss); distinct by (grammar, token string).  Each of these small grammars (also those on which parser() raised) is additionally one case of the generator-model correspondence LR.Gen.generate vs lr1.Grammar (non-trivial with >= 2 productions and >= 3 states; distinct by grammar), plus one FIRST-only case for the Emboss grammar")
     ctx.trusted = ["Coq 8.16.1 kernel, vm_compute", "OCaml 4.13.1 + extraction (ExtrOcamlBasic) + extract/lr/driver.ml",
                    "harness/lr_tables.py (translator, Earley recogniser used as oracle for the unproved direction)",
-                   "harness/props/c08.py", "CPython 3.12 running /repo's lr1.py"]
+                   "harness/props/c08.py", "CPython 3.12 running /repo's lr1.py",
+                   "harness/lr_gen_x.py (decoder and comparator of the generator-model correspondence; reads lr1.Grammar's firsts, _first, _closure_of_item, _items, parser)"]
     ctx.assumptions = ["symbols are non-empty strings (lr1.py treats falsy symbols as epsilon)",
                        "completeness / no-late-error / conflict reporting are tested, not proved (see level_note)",
                        "PYTHONHASHSEED is fixed by ./check; lr1.Grammar.parser() is hash-seed dependent on grammars with an Accept/Reduce clash (finding F11)"]
@@ -318,7 +454,7 @@ def run(ctx):
         T0 = time.time()
 
     ctx.audit(extra_files=[os.path.join(fw.VERIF, "extract", "lr", "Extract.v")])
-    ctx.check_theorems("EmbossV.LR.Properties_C08", "LR/Properties_C08.v", expect_min=13)
+    ctx.check_theorems("EmbossV.LR.Properties_C08", "LR/Properties_C08.v", expect_min=30)
     lap("coq build + assumptions")
 
     driver = L.build_driver(ctx)
@@ -382,6 +518,8 @@ def run(ctx):
         n_grammars = 1500 if thorough else 120
         smalls = small_grammar_cases(ctx, bench, n_grammars, 10, corpus)
         lap("random grammars: lr1, translation, python runs")
+        gen_emboss_first = gen_model_cases(ctx, bench, smalls, emboss)      # commands 30/31: LR/Gen.v vs lr1.Grammar
+        lap("generator model: lr1 views, commands")
         bench.flush("main")
         lap("extracted model run")
     except L.TranslationError as ex:
@@ -435,6 +573,8 @@ def run(ctx):
                                         generator_exceptions=sum(1 for sg in smalls if sg.parser is None))
 
     lap("verdicts (earley, derivation checks)")
+    judge_gen_model(ctx, bench, smalls, gen_emboss_first)
+    lap("generator model: decoding, comparison")
     # ---- the same commands inside Coq (vm_compute) for a sample / all ------------------------
     coq_recheck(ctx, bench, [sg for sg in smalls if sg.parser is not None], thorough, emboss)
     lap("in-Coq re-evaluation")
@@ -464,6 +604,9 @@ def coq_recheck(ctx, bench, smalls, thorough, emboss=None):
             lines += L.rank_cert_lines(sg.prods, I)[0]
             lines.append([24, sg.slot, sg.slot])
             expect.append([24, sg.slot, sg.slot, 1 if sg.early else 0, 1 if sg.productive else 0])
+            if getattr(sg, "gen_cmd", None) and getattr(sg, "gen_raw", None):
+                lines.append(list(sg.gen_cmd))           # LR.Gen.generate: extraction vs vm_compute
+                expect.append(sg.gen_raw)
             for e in sg.entries[: (400 if thorough else 150)]:
                 lines.append([13, sg.slot, FUEL_SMALL(len(e["w"]))] + [I.s(x) for x in e["w"]])
                 expect.append(e["model"])
